@@ -153,6 +153,7 @@ class DstWorld(World):
         k = ev[0]
         ent = st.D
         pre_step = ent.h.states.step.name
+        pre_progress = getattr(getattr(getattr(ent.h, "_params", None), "fp", None), "progress", None)
         pre_tree = sandbox.tree()
         rem = [clock.remaining(t) for t in clock.timers(ent.h)]
         out["timers"] = [len(rem), sum(1 for r in rem if r == 0)]  # armed timers, of which expired at call entry
@@ -197,6 +198,7 @@ class DstWorld(World):
         sandbox.invalidate()
         post_tree = sandbox.tree()
         out["pre_step"] = pre_step
+        out["pre_progress"] = pre_progress
         out["post_step"] = ent.h.states.step.name
         if post_tree != pre_tree:
             pre = {p: (kk, cc) for p, kk, cc in pre_tree}
@@ -211,7 +213,7 @@ class DstWorld(World):
         pass
 
     def quiet(self, obs):
-        return set(obs) <= {"pre_step", "post_step", "dt", "timers"} and obs.get("pre_step") == obs.get("post_step")
+        return set(obs) <= {"pre_step", "post_step", "pre_progress", "dt", "timers"} and obs.get("pre_step") == obs.get("post_step")
 
     # ---- helpers -----------------------------------------------------------------------------
     @staticmethod
